@@ -1375,6 +1375,398 @@ theorem gen_server_init (A : HExtOk X C) (hC : C.Lawful) (ov : Bool) (g : Server
 
 end init
 
+/-! ## Part 9 — the closed theorem: generated `ServerAeadCodec::decode` = the model's `Server.decode`, every call -/
+section closed
+open Octo.VmessBodyGen (Rel RelN SessD)
+variable {CM XR W GCM : Type} {X : Ext CM XR W GCM} {C : Crypto}
+
+/-- the option mask of an option list, as `get_mask` computes it -/
+def maskOfOpts (l : List RequestOption) : Nat := (l.foldl (fun a o => a ||| RequestOption.as_u8 o) (0 : UInt8)).toNat
+/-- the cipher `AEADBodyCodec::new` chooses for a `SecurityType`: only `Chacha20Poly1305` selects ChaCha -/
+def secM : SecurityType → Security
+  | .Chacha20Poly1305 => .chacha20
+  | _ => .aes128gcm
+
+theorem opts_mask_fin : ∀ k : Fin 256, maskOfOpts (optsOf (UInt8.ofNat k.val)) = knownMask (UInt8.ofNat k.val).toNat := by decide +kernel
+theorem sec_fin : ∀ k : Fin 256, secM (secOf (UInt8.ofNat k.val &&& 15)) = Security.ofByte ((UInt8.ofNat k.val).toNat % 16) := by
+  decide +kernel
+theorem u8_ofNat_toNat (m : UInt8) : UInt8.ofNat m.toNat = m := by
+  apply UInt8.toNat_inj.mp
+  rw [UInt8.toNat_ofNat_of_lt' (by simp only [UInt8.size]; exact m.toNat_lt)]
+
+/-- **`optsOf m` ↔ `knownMask m`**: the option list `from_mask` builds carries exactly the five known bits of the wire mask -/
+theorem opts_mask (m : UInt8) : maskOfOpts (optsOf m) = knownMask m.toNat := by
+  have := opts_mask_fin ⟨m.toNat, m.toNat_lt⟩
+  simpa only [u8_ofNat_toNat] using this
+theorem sec_model (b : UInt8) : secM (secOf (b &&& 15)) = Security.ofByte (b.toNat % 16) := by
+  have := sec_fin ⟨b.toNat, b.toNat_lt⟩
+  simpa only [u8_ofNat_toNat] using this
+
+/-- the model session of a generated server session -/
+def sessM (s : ServerSession) : Session := ⟨s.request_body_iv, s.request_body_key, s.response_header⟩
+
+/-- **what is assumed of the two constructors that are not translated** (`ServerSession::new`, `AEADBodyCodec::new_decoder`), stated
+through the relations of `Octo/Proofs/VmessBodyGen.lean`: the session keeps the request IV / key / response byte (response IV / key =
+SHA-256, as the model's `Session.respIv/respKey`); for 16-byte request key and IV `new_decoder` succeeds and the codec value it builds
+stands (`Rel`) for the model's `Body.new` of the header's option mask and cipher, over the request key / IV, and the session it leaves
+stands (`SessD`) for that body's IVs -/
+structure NewDecOk (X : Ext CM XR W GCM) (C : Crypto) (B : Octo.VmessBodyGen.ExtOk X.body C) : Prop where
+  sess_new : ∀ iv key rh, X.server_session_new iv key rh = ⟨iv, key, (C.sha256 iv).take 16, (C.sha256 key).take 16, rh⟩
+  new_dec : ∀ (hdr : RequestHeader) (sess : ServerSession), sess.request_body_iv.length = 16 → sess.request_body_key.length = 16 →
+    ∃ sess' d, X.new_decoder hdr (.ServerSession sess) = (.ServerSession sess', RResult.ok d) ∧
+      Rel B d (Body.new C (maskOfOpts hdr.option) (secM hdr.security) sess.request_body_key sess.request_body_iv (sessM sess)) ∧
+      SessD (.ServerSession sess') (Body.new C (maskOfOpts hdr.option) (secM hdr.security) sess.request_body_key sess.request_body_iv (sessM sess))
+
+/-- generated server value ↔ model server -/
+def SRel (B : Octo.VmessBodyGen.ExtOk X.body C) (g : ServerAeadCodec CM XR) (sv : Server) : Prop :=
+  g.keys = sv.keys ∧
+  match g.decode_state, sv.ready with
+  | .Init, none => True
+  | .Ready hdr sess d, some r =>
+    hdr.command = cmdG r.cmd ∧ Octo.VmessAddrGen.toAddr hdr.address = r.addr ∧ RelN B d r.dec ∧ SessD (.ServerSession sess) r.dec
+  | _, _ => False
+
+theorem parse_ok_fields (u : Bytes → Bool) (h : Bytes) (s : Session) (mask : Nat) (sec : Security) (cmd : Cmd) (addr : Addr)
+    (hp : parseRequest C u h = .ok (s, mask, sec, cmd, addr)) :
+    sec = Security.ofByte ((h.getD 35 0).toNat % 16) ∧ 41 ≤ h.length := by
+  rw [Vmess.parseRequest_eq] at hp
+  split at hp
+  · cases hp
+  · rename_i h41
+    split at hp
+    · cases hp
+    · split at hp
+      · cases hp
+      · split at hp
+        · cases hp
+        · split at hp
+          · split at hp
+            · cases hp
+            · simp only [Octo.Res.ok.injEq, Prod.mk.injEq] at hp
+              exact ⟨hp.2.2.1.symm, by omega⟩
+          · cases hp
+          · cases hp
+
+/-- `serverFinish` under `NewDecOk`, TCP -/
+theorem serverFinish_tcp (B : Octo.VmessBodyGen.ExtOk X.body C) (N : NewDecOk X C B) (hC : C.Lawful) (ov : Bool)
+    (g : ServerAeadCodec CM XR) (w : W) (src : Bytes) (hdr : RequestHeader) (sess : ServerSession)
+    (hiv : sess.request_body_iv.length = 16) (hkey : sess.request_body_key.length = 16) (hc : hdr.command = .TCP) (h64 : src.length < 2 ^ 64) :
+    let body := Body.new C (maskOfOpts hdr.option) (secM hdr.security) sess.request_body_key sess.request_body_iv (sessM sess)
+    ∃ d' sess', serverFinish X ov g w src hdr sess =
+        PWGen.Res.ok ({ g with decode_state := .Ready hdr sess' d' }, w, (Fr.run (Body.unit C) body src).buf,
+          if (Fr.run (Body.unit C) body src).failed then RResult.err
+          else RResult.ok (some (InboundIn.ConnectTcp (Fr.run (Body.unit C) body src).out hdr.address))) ∧
+      RelN B d' (Fr.run (Body.unit C) body src).st ∧ SessD (.ServerSession sess') (Fr.run (Body.unit C) body src).st := by
+  intro body
+  obtain ⟨sess1, d, hnd, hrel, hsd⟩ := N.new_dec hdr sess hiv hkey
+  obtain ⟨d', sess', he, h1, h2⟩ := gen_decode_header_tcp (X := X) B hC ov hdr d body src sess1 hc
+    (Octo.VmessBodyGen.relN_of_rel B d body hrel) hsd h64
+  exact ⟨d', sess', by simp only [serverFinish, hnd, he], h1, h2⟩
+
+/-- `serverFinish` under `NewDecOk`, UDP -/
+theorem serverFinish_udp (B : Octo.VmessBodyGen.ExtOk X.body C) (N : NewDecOk X C B) (hC : C.Lawful) (ov : Bool)
+    (g : ServerAeadCodec CM XR) (w : W) (src : Bytes) (hdr : RequestHeader) (sess : ServerSession)
+    (hiv : sess.request_body_iv.length = 16) (hkey : sess.request_body_key.length = 16) (hc : hdr.command = .UDP) (h64 : src.length < 2 ^ 64) :
+    let body := Body.new C (maskOfOpts hdr.option) (secM hdr.security) sess.request_body_key sess.request_body_iv (sessM sess)
+    ∃ d' sess', serverFinish X ov g w src hdr sess =
+        PWGen.Res.ok ({ g with decode_state := .Ready hdr sess' d' }, w, (bodyDrainPacket C 3 body src).2.1,
+          match (bodyDrainPacket C 3 body src).2.2 with
+          | .ok o => RResult.ok (some (InboundIn.RelayUdp o hdr.address))
+          | .more => RResult.ok none
+          | _ => RResult.err) ∧
+      RelN B d' (bodyDrainPacket C 3 body src).1 ∧ SessD (.ServerSession sess') (bodyDrainPacket C 3 body src).1 := by
+  intro body
+  obtain ⟨sess1, d, hnd, hrel, hsd⟩ := N.new_dec hdr sess hiv hkey
+  obtain ⟨d', sess', he, h1, h2⟩ := gen_decode_header_udp (X := X) B hC ov hdr d body src sess1 hc
+    (Octo.VmessBodyGen.relN_of_rel B d body hrel) hsd h64
+  exact ⟨d', sess', by simp only [serverFinish, hnd, he], h1, h2⟩
+
+/-- **THE CLOSED THEOREM — the generated `ServerAeadCodec::decode` is the model's `Server.decode`, for every call**: every related
+pair of states (`Init` or `Ready`), every buffer below 2^64 bytes, both overflow profiles, inside the i64 guard of the time window
+(needed only in `Init` with ≥ 16 bytes): the generated call does not panic, leaves exactly the model's buffer, returns the model's
+outcome (`Ok(None)` / `Err` / the same item: `ConnectTcp` / `RelayTcp` / `RelayUdp` with the same bytes and address), the new states
+are related again, and the clock still shows the same time -/
+theorem gen_server_decode_eq (A : HExtOk X C) (B : Octo.VmessBodyGen.ExtOk X.body C) (N : NewDecOk X C B) (hC : C.Lawful) (ov : Bool)
+    (g : ServerAeadCodec CM XR) (sv : Server) (w : W) (buf : Bytes) (hrel : SRel B g sv) (hl : buf.length < 2 ^ 64)
+    (hguard : sv.ready = none → 16 ≤ buf.length → MatchGuard C (buf.take 16) sv.keys (A.nowOf w)) :
+    ∃ g' w' res, ServerAeadCodec.Decoder_decode X ov g w buf =
+        PWGen.Res.ok (g', w', (Server.decode C X.utf8_ok (A.nowOf w) sv buf).buf, res) ∧
+      resOf res = (Server.decode C X.utf8_ok (A.nowOf w) sv buf).res ∧
+      SRel B g' (Server.decode C X.utf8_ok (A.nowOf w) sv buf).st ∧ A.nowOf w' = A.nowOf w := by
+  obtain ⟨hkeys, hst⟩ := hrel
+  cases hr : sv.ready with
+  | some r =>
+    -- state `Ready`
+    rw [hr] at hst
+    cases hds : g.decode_state with
+    | Init => rw [hds] at hst; exact hst.elim
+    | Ready hdr sess d =>
+      rw [hds] at hst
+      obtain ⟨hc, ha, hrn, hsd⟩ := hst
+      have hrd := gen_server_ready (X := X) B hC ov g w hdr sess d r.dec buf r.cmd hds hc hrn hsd hl
+      by_cases he : buf = []
+      · subst he
+        simp only [if_true] at hrd
+        refine ⟨g, w, RResult.ok none, by rw [hrd]; simp [Server.decode, hr], ?_, ?_, rfl⟩
+        · simp [Server.decode, hr, resOf]
+        · simp only [Server.decode, hr, List.isEmpty_nil, if_true]
+          exact ⟨hkeys, by rw [hds, hr]; exact ⟨hc, ha, hrn, hsd⟩⟩
+      · simp only [he, if_false] at hrd
+        obtain ⟨d', sess', res, hdec, hres, h1, h2⟩ := hrd
+        have hne : buf.isEmpty = false := by cases buf <;> simp_all
+        refine ⟨{ g with decode_state := .Ready hdr sess' d' }, w, res, ?_, ?_, ?_, rfl⟩
+        · rw [hdec]; simp only [Server.decode, hr, hne, Bool.false_eq_true, if_false]
+          rcases hbd : bodyDecode C r.cmd r.dec buf with ⟨b', buf', rr⟩
+          cases rr <;> rfl
+        · simp only [Server.decode, hr, hne, Bool.false_eq_true, if_false]
+          rcases hbd : bodyDecode C r.cmd r.dec buf with ⟨b', buf', rr⟩
+          rw [hbd] at hres
+          cases rr with
+          | ok o =>
+            simp only at hres; subst hres
+            cases hcm : r.cmd <;> simp [resOf, itemOf, ha]
+          | more => simp only at hres; subst hres; rfl
+          | err => simp only at hres; subst hres; rfl
+          | panic => simp only at hres; subst hres; rfl
+        · simp only [Server.decode, hr, hne, Bool.false_eq_true, if_false]
+          rcases hbd : bodyDecode C r.cmd r.dec buf with ⟨b', buf', rr⟩
+          rw [hbd] at h1 h2
+          cases rr <;> exact ⟨hkeys, ⟨hc, ha, h1, h2⟩⟩
+  | none =>
+    rw [hr] at hst
+    cases hds : g.decode_state with
+    | Ready hdr sess d => rw [hds] at hst; exact hst.elim
+    | Init =>
+      by_cases h16 : buf.length < 16
+      · refine ⟨g, w, RResult.ok none, gen_server_short ov g w buf hds hl h16 ▸ ?_, ?_, ?_, rfl⟩
+        · simp [Server.decode, hr, h16]
+        · simp [Server.decode, hr, h16, resOf]
+        · simp only [Server.decode, hr, h16, if_true]; exact ⟨hkeys, by rw [hds, hr]; trivial⟩
+      · have h16' : 16 ≤ buf.length := by omega
+        obtain ⟨w', hw', hinit⟩ := gen_server_init A hC ov g w buf hds hl h16' (by rw [hkeys]; exact hguard hr h16')
+        rw [hkeys] at hinit
+        have hInitRel : SRel B g sv := ⟨hkeys, by rw [hds, hr]; trivial⟩
+        cases hm : authIdMatch C (buf.take 16) sv.keys (A.nowOf w) with
+        | none =>
+          rw [hm] at hinit
+          refine ⟨g, w', RResult.err, by rw [hinit]; simp [Server.decode, hr, h16, hm], by simp [Server.decode, hr, h16, hm, resOf], ?_, hw'⟩
+          simp only [Server.decode, hr, h16, if_false, hm]; exact hInitRel
+        | some key =>
+          rw [hm] at hinit
+          simp only at hinit
+          cases ho : openHeader C key buf with
+          | more =>
+            rw [ho] at hinit
+            refine ⟨g, w', RResult.ok none, by rw [hinit]; simp [Server.decode, hr, h16, hm, ho],
+              by simp [Server.decode, hr, h16, hm, ho, resOf], ?_, hw'⟩
+            simp only [Server.decode, hr, h16, if_false, hm, ho]; exact hInitRel
+          | err =>
+            rw [ho] at hinit
+            refine ⟨g, w', RResult.err, by rw [hinit]; simp [Server.decode, hr, h16, hm, ho],
+              by simp [Server.decode, hr, h16, hm, ho, resOf], ?_, hw'⟩
+            simp only [Server.decode, hr, h16, if_false, hm, ho]; exact hInitRel
+          | panic => rw [ho] at hinit; exact hinit.elim
+          | ok v =>
+            obtain ⟨h, n⟩ := v
+            rw [ho] at hinit
+            simp only at hinit
+            cases hp : parseRequest C X.utf8_ok h with
+            | more =>
+              rw [hp] at hinit
+              refine ⟨g, w', RResult.err, by rw [hinit]; simp [Server.decode, hr, h16, hm, ho, hp],
+                by simp [Server.decode, hr, h16, hm, ho, hp, resOf], ?_, hw'⟩
+              simp only [Server.decode, hr, h16, if_false, hm, ho, hp]; exact hInitRel
+            | err =>
+              rw [hp] at hinit
+              refine ⟨g, w', RResult.err, by rw [hinit]; simp [Server.decode, hr, h16, hm, ho, hp],
+                by simp [Server.decode, hr, h16, hm, ho, hp, resOf], ?_, hw'⟩
+              simp only [Server.decode, hr, h16, if_false, hm, ho, hp]; exact hInitRel
+            | panic => rw [hp] at hinit; exact hinit.elim
+            | ok v =>
+              obtain ⟨s, mask, sec, cmd, addr⟩ := v
+              rw [hp] at hinit
+              obtain ⟨x, hxa, hs, hmask, hcmd, hdec⟩ := hinit
+              obtain ⟨hsec, h41⟩ := parse_ok_fields X.utf8_ok h s mask sec cmd addr hp
+              have hsn := N.sess_new s.reqIv s.reqKey s.respHeader
+              have hiv : s.reqIv.length = 16 := by rw [hs]; simp [List.length_take, List.length_drop]; omega
+              have hky : s.reqKey.length = 16 := by rw [hs]; simp [List.length_take, List.length_drop]; omega
+              have hbody : Body.new C (maskOfOpts (hdrOf h x key).option) (secM (hdrOf h x key).security) s.reqKey s.reqIv
+                  (sessM ⟨s.reqIv, s.reqKey, (C.sha256 s.reqIv).take 16, (C.sha256 s.reqKey).take 16, s.respHeader⟩) =
+                  Body.new C (knownMask mask) sec s.reqKey s.reqIv s := by
+                simp only [hdrOf, opts_mask, sec_model, hmask, hsec, sessM]
+              have hrest : (buf.drop n).length < 2 ^ 64 := by rw [List.length_drop]; omega
+              rw [hsn] at hdec
+              cases cmd with
+              | tcp =>
+                have hct : (hdrOf h x key).command = .TCP := by rw [hcmd]; rfl
+                obtain ⟨d', sess', hfin, h1, h2⟩ := serverFinish_tcp (X := X) B N hC ov g w' (buf.drop n) (hdrOf h x key)
+                  ⟨s.reqIv, s.reqKey, (C.sha256 s.reqIv).take 16, (C.sha256 s.reqKey).take 16, s.respHeader⟩ hiv hky hct hrest
+                simp only [hbody] at hfin h1 h2
+                by_cases hf : (Fr.run (Body.unit C) (Body.new C (knownMask mask) sec s.reqKey s.reqIv s) (buf.drop n)).failed = true
+                · refine ⟨{ g with decode_state := .Ready (hdrOf h x key) sess' d' }, w', RResult.err, ?_, ?_, ?_, hw'⟩
+                  · rw [hdec, hfin]; simp [Server.decode, hr, h16, hm, ho, hp, hf]
+                  · simp [Server.decode, hr, h16, hm, ho, hp, hf, resOf]
+                  · simp only [Server.decode, hr, h16, if_false, hm, ho, hp, hf, if_true]
+                    exact ⟨hkeys, hct, hxa, h1, h2⟩
+                · refine ⟨{ g with decode_state := .Ready (hdrOf h x key) sess' d' }, w', RResult.ok (some (InboundIn.ConnectTcp (Fr.run (Body.unit C) (Body.new C (knownMask mask) sec s.reqKey s.reqIv s) (buf.drop n)).out (hdrOf h x key).address)), ?_, ?_, ?_, hw'⟩
+                  · rw [hdec, hfin]; simp [Server.decode, hr, h16, hm, ho, hp, hf]
+                  · simp [Server.decode, hr, h16, hm, ho, hp, hf, resOf, itemOf, hxa, hdrOf]
+                  · simp only [Server.decode, hr, h16, if_false, hm, ho, hp, hf, Bool.false_eq_true]
+                    exact ⟨hkeys, hct, hxa, h1, h2⟩
+              | udp =>
+                have hct : (hdrOf h x key).command = .UDP := by rw [hcmd]; rfl
+                obtain ⟨d', sess', hfin, h1, h2⟩ := serverFinish_udp (X := X) B N hC ov g w' (buf.drop n) (hdrOf h x key)
+                  ⟨s.reqIv, s.reqKey, (C.sha256 s.reqIv).take 16, (C.sha256 s.reqKey).take 16, s.respHeader⟩ hiv hky hct hrest
+                simp only [hbody] at hfin h1 h2
+                rcases hbd : bodyDrainPacket C 3 (Body.new C (knownMask mask) sec s.reqKey s.reqIv s) (buf.drop n) with ⟨b', buf', rr⟩
+                rw [hbd] at hfin h1 h2
+                simp only at hfin h1 h2
+                cases rr with
+                | ok o =>
+                  refine ⟨{ g with decode_state := .Ready (hdrOf h x key) sess' d' }, w', RResult.ok (some (InboundIn.RelayUdp o (hdrOf h x key).address)), ?_, ?_, ?_, hw'⟩
+                  · rw [hdec, hfin]; simp [Server.decode, hr, h16, hm, ho, hp, bodyDecode, hbd]
+                  · simp [Server.decode, hr, h16, hm, ho, hp, bodyDecode, hbd, resOf, itemOf, hxa, hdrOf]
+                  · simp only [Server.decode, hr, h16, if_false, hm, ho, hp, bodyDecode, hbd]
+                    exact ⟨hkeys, hct, hxa, h1, h2⟩
+                | more =>
+                  refine ⟨{ g with decode_state := .Ready (hdrOf h x key) sess' d' }, w', RResult.ok none, ?_, ?_, ?_, hw'⟩
+                  · rw [hdec, hfin]; simp [Server.decode, hr, h16, hm, ho, hp, bodyDecode, hbd]
+                  · simp [Server.decode, hr, h16, hm, ho, hp, bodyDecode, hbd, resOf]
+                  · simp only [Server.decode, hr, h16, if_false, hm, ho, hp, bodyDecode, hbd]
+                    exact ⟨hkeys, hct, hxa, h1, h2⟩
+                | err =>
+                  refine ⟨{ g with decode_state := .Ready (hdrOf h x key) sess' d' }, w', RResult.err, ?_, ?_, ?_, hw'⟩
+                  · rw [hdec, hfin]; simp [Server.decode, hr, h16, hm, ho, hp, bodyDecode, hbd]
+                  · simp [Server.decode, hr, h16, hm, ho, hp, bodyDecode, hbd, resOf]
+                  · simp only [Server.decode, hr, h16, if_false, hm, ho, hp, bodyDecode, hbd]
+                    exact ⟨hkeys, hct, hxa, h1, h2⟩
+                | panic =>
+                  refine ⟨{ g with decode_state := .Ready (hdrOf h x key) sess' d' }, w', RResult.err, ?_, ?_, ?_, hw'⟩
+                  · rw [hdec, hfin]; simp [Server.decode, hr, h16, hm, ho, hp, bodyDecode, hbd]
+                  · simp [Server.decode, hr, h16, hm, ho, hp, bodyDecode, hbd, resOf]
+                  · simp only [Server.decode, hr, h16, if_false, hm, ho, hp, bodyDecode, hbd]
+                    exact ⟨hkeys, hct, hxa, h1, h2⟩
+
+end closed
+
+/-! ## Part 10 — `ServerAeadCodec::encode`: the response header, once -/
+section sencode
+variable {CM XR W GCM : Type} {X : Ext CM XR W GCM} {C : Crypto}
+
+/-- what is assumed of the two further externals of the encoder: `Aes128Gcm::encrypt` is the model's `sealB`; `new_encoder` cannot
+change the implementor behind `&mut dyn Session` -/
+structure EncExtOk (X : Ext CM XR W GCM) (C : Crypto) (A : HExtOk X C) : Prop where
+  enc : ∀ g n ad m, X.gcm_encrypt g n m ad = RResult.ok (C.sealB .aes128gcm (A.gcmKey g) n ad m)
+  new_enc_server : ∀ h s, ∃ s' r, X.new_encoder h (.ServerSession s) = (.ServerSession s', r)
+
+/-- `OutboundIn` → the bytes to encode (`impl From<OutboundIn> for BytesMut`) -/
+def bytesOf : OutboundIn → List UInt8
+  | .Tcp b => b
+  | .Udp (b, _) => b
+theorem from_outbound_eval (ov : Bool) (item : OutboundIn) : BytesMut.From_OutboundIn_from X ov item = PWGen.Res.ok (bytesOf item) := by
+  cases item with
+  | Tcp b => rfl
+  | Udp v => obtain ⟨b, a⟩ := v; rfl
+
+/-- `RequestOption::get_mask` as a total function (no `unwrap` on an empty list: `unwrap_or(0)`) -/
+def maskByte (l : List RequestOption) : UInt8 :=
+  Option.getD (Iter.reduce (fun a b => a ||| b) (List.map (fun x => RequestOption.as_u8 x) l)) 0
+theorem get_mask_eval (ov : Bool) (l : List RequestOption) : RequestOption.get_mask X ov l = PWGen.Res.ok (maskByte l) := rfl
+
+/-- the response header as the model / the specification write it, for a generated server session and option byte -/
+def respHeaderM (C : Crypto) (sess : ServerSession) (opt : UInt8) : Bytes :=
+  C.sealB .aes128gcm (Vmess.kdf16 C sess.response_body_key [saltRespLenKey]) (Vmess.kdfn C 12 sess.response_body_iv [saltRespLenIv]) [] (be16 4) ++
+    C.sealB .aes128gcm (Vmess.kdf16 C sess.response_body_key [saltRespKey]) (Vmess.kdfn C 12 sess.response_body_iv [saltRespIv]) []
+      [sess.response_header, opt, 0, 0]
+
+theorem len4_be (a b : UInt8) : U16.to_be_bytes (Usize.as_u16 (Cursor.len ([a, b, (0 : UInt8), (0 : UInt8)] : List UInt8))) = be16 4 := by
+  have : Cursor.len ([a, b, (0 : UInt8), (0 : UInt8)] : List UInt8) = 4 := rfl
+  rw [this]; decide
+
+/-- **first `encode`** (state `Ready`, no encoder yet): the response header — sealed length 4, then sealed `[response byte, option
+mask, 0, 0]` under the keys derived from the session's RESPONSE key / IV — is appended to `dst`, then `new_encoder`, then the item goes
+through the body encoder, and the encoder is kept -/
+theorem gen_server_encode_first (A : HExtOk X C) (E : EncExtOk X C A) (ov : Bool) (g : ServerAeadCodec CM XR) (w : W)
+    (hdr : RequestHeader) (sess : ServerSession) (d : AEADBodyCodec CM XR) (item : OutboundIn) (dst : Bytes)
+    (hst : g.decode_state = .Ready hdr sess d) (hes : g.encode_state = .Init) :
+    ∃ sess' r, X.new_encoder hdr (.ServerSession sess) = (.ServerSession sess', r) ∧
+      ServerAeadCodec.Encoder_OutboundIn_encode X ov g w item dst =
+        match r with
+        | RResult.err => PWGen.Res.ok ({ g with decode_state := .Ready hdr sess' d }, w,
+            dst ++ respHeaderM C sess (maskByte hdr.option), RResult.err)
+        | RResult.ok enc =>
+          match ServerAeadCodec.encode X ov w (bytesOf item) (dst ++ respHeaderM C sess (maskByte hdr.option)) hdr sess' enc with
+          | .ok (w', dst', sess'', enc', res) =>
+            PWGen.Res.ok ({ g with decode_state := .Ready hdr sess'' d, encode_state := .Ready enc' }, w', dst', res)
+          | .panic => PWGen.Res.panic := by
+  obtain ⟨g1, hg1, hk1⟩ := A.gcm_new (Vmess.kdf16 C sess.response_body_key [saltRespLenKey]) (kdf16_length _ _ _)
+  obtain ⟨g2, hg2, hk2⟩ := A.gcm_new (Vmess.kdf16 C sess.response_body_key [saltRespKey]) (kdf16_length _ _ _)
+  obtain ⟨sess', r, hnd⟩ := E.new_enc_server hdr sess
+  refine ⟨sess', r, hnd, ?_⟩
+  simp only [ServerAeadCodec.Encoder_OutboundIn_encode, hst, hes, A.kdf16, A.kdfn, e12, salt_resp_len_key, salt_resp_len_iv, salt_resp_key,
+    salt_resp_iv, hg1, hg2, question_ok, bind_next, get_mask_eval, call_ok, E.enc, hk1, hk2, len4_be, Cursor.extend_from_slice, hnd,
+    as_server_ok, from_outbound_eval, respHeaderM, List.append_assoc]
+  cases r with
+  | err => simp only [question_err, bind_ret, run_ret]
+  | ok enc =>
+    simp only [question_ok, bind_next]
+    cases ServerAeadCodec.encode X ov w (bytesOf item) _ hdr sess' enc with
+    | panic => simp only [call_panic, bind_panic, run_panic']
+    | ok v => obtain ⟨a, b, c, e, f⟩ := v; simp only [call_ok, bind_next, run_ret]
+
+/-- **later `encode`s** (the encoder exists): NO header — the item goes straight through the body encoder -/
+theorem gen_server_encode_later (ov : Bool) (g : ServerAeadCodec CM XR) (w : W)
+    (hdr : RequestHeader) (sess : ServerSession) (d enc : AEADBodyCodec CM XR) (item : OutboundIn) (dst : Bytes)
+    (hst : g.decode_state = .Ready hdr sess d) (hes : g.encode_state = .Ready enc) :
+    ServerAeadCodec.Encoder_OutboundIn_encode X ov g w item dst =
+      match ServerAeadCodec.encode X ov w (bytesOf item) dst hdr sess enc with
+      | .ok (w', dst', sess'', enc', res) =>
+        PWGen.Res.ok ({ g with decode_state := .Ready hdr sess'' d, encode_state := .Ready enc' }, w', dst', res)
+      | .panic => PWGen.Res.panic := by
+  simp only [ServerAeadCodec.Encoder_OutboundIn_encode, hst, hes, from_outbound_eval, call_ok, bind_next]
+  cases ServerAeadCodec.encode X ov w (bytesOf item) dst hdr sess enc with
+  | panic => simp only [call_panic, bind_panic, run_panic']
+  | ok v => obtain ⟨a, b, c, e, f⟩ := v; simp only [call_ok, bind_next, run_ret]
+
+/-- before the request header has been decoded (`Init`) `encode` refuses: nothing written -/
+theorem gen_server_encode_not_ready (ov : Bool) (g : ServerAeadCodec CM XR) (w : W) (item : OutboundIn) (dst : Bytes)
+    (hst : g.decode_state = .Init) :
+    ServerAeadCodec.Encoder_OutboundIn_encode X ov g w item dst = PWGen.Res.ok (g, w, dst, RResult.err) := by
+  simp only [ServerAeadCodec.Encoder_OutboundIn_encode, hst, run_ret]
+
+/-- the item itself: a TCP connection's items go through the body codec's `encode_payload` (chunked), a UDP association's through
+`encode_packet` (one chunk, refused when too large), on the server's session -/
+theorem gen_server_encode_item (ov : Bool) (w : W) (item dst : Bytes) (hdr : RequestHeader) (sess : ServerSession)
+    (enc : AEADBodyCodec CM XR) :
+    ServerAeadCodec.encode X ov w item dst hdr sess enc =
+      match (match hdr.command with
+        | .TCP => Octo.VmessBodyGen.AEADBodyCodec.encode_payload X.body ov enc w item dst (.ServerSession sess)
+        | .UDP => Octo.VmessBodyGen.AEADBodyCodec.encode_packet X.body ov enc w item dst (.ServerSession sess)) with
+      | .ok (enc', w', dst', .ServerSession s', r) => PWGen.Res.ok (w', dst', s', enc', r)
+      | .ok (_, _, _, .ClientSession _, _) => PWGen.Res.panic
+      | .panic => PWGen.Res.panic := by
+  cases hc : hdr.command with
+  | TCP =>
+    simp only [ServerAeadCodec.encode, hc]
+    cases Octo.VmessBodyGen.AEADBodyCodec.encode_payload X.body ov enc w item dst (.ServerSession sess) with
+    | panic => simp only [call_panic, bind_panic, run_panic']
+    | ok v =>
+      obtain ⟨a, b, c, ds, r⟩ := v
+      cases ds with
+      | ServerSession s' => simp only [call_ok, bind_next, as_server_ok, run_ret]
+      | ClientSession s' => simp only [call_ok, bind_next, Flow.as_server, bind_panic, run_panic']
+  | UDP =>
+    simp only [ServerAeadCodec.encode, hc]
+    cases Octo.VmessBodyGen.AEADBodyCodec.encode_packet X.body ov enc w item dst (.ServerSession sess) with
+    | panic => simp only [call_panic, bind_panic, run_panic']
+    | ok v =>
+      obtain ⟨a, b, c, ds, r⟩ := v
+      cases ds with
+      | ServerSession s' => simp only [call_ok, bind_next, as_server_ok, run_ret]
+      | ClientSession s' => simp only [call_ok, bind_next, Flow.as_server, bind_panic, run_panic']
+
+end sencode
+
 /-! ## the i64 edge of the time window (difference between the code and the model's `authIdMatch`) -/
 
 /-- the window test of the generated `matching` on the timestamp `t` and the clock value `now` (both as i64 bits), release profile -/
@@ -1405,6 +1797,8 @@ def hextOf (C : Crypto) : Ext (Alg × Bytes) (Bytes × Nat) Unit Bytes where
   kdf16 := fun k p => Vmess.kdf16 C k p
   kdfn := fun n k p => Vmess.kdfn C n.toNat k p
   gcm_new := fun k => if k.length = 16 then RResult.ok k else RResult.err
+  gcm_encrypt := fun g n m ad => RResult.ok (C.sealB .aes128gcm g n ad m)
+  new_encoder := fun _ s => (s, RResult.err)
   gcm_decrypt := fun g n m ad => match C.openB .aes128gcm g n ad m with
     | some p => RResult.ok p
     | none => RResult.err
@@ -1441,6 +1835,26 @@ def hextOf_ok (C : Crypto) (hcrc : ∀ b, C.crc32 b < 2 ^ 32) (hfnv : ∀ b, C.f
   now_lt := fun _ => by decide
   new_dec_client := fun _ s => ⟨s, RResult.err, rfl⟩
   new_dec_server := fun _ s => ⟨s, RResult.err, rfl⟩
+
+theorem encExtOk_hextOf (C : Crypto) (hcrc : ∀ b, C.crc32 b < 2 ^ 32) (hfnv : ∀ b, C.fnv1a32 b < 2 ^ 32) :
+    EncExtOk (hextOf C) C (hextOf_ok C hcrc hfnv) where
+  enc := fun _ _ _ _ => rfl
+  new_enc_server := fun _ s => ⟨s, RResult.err, rfl⟩
+
+/-- externals whose `new_decoder` builds the codec value of the model's `Body.new` (witness for `NewDecOk`) -/
+def hextOf2 (C : Crypto) : Ext (Alg × Bytes) (Bytes × Nat) Unit Bytes :=
+  { hextOf C with
+    new_decoder := fun hdr s => match s with
+      | .ServerSession ss => (s, RResult.ok (Octo.VmessBodyGen.genOf
+          (Body.new C (maskOfOpts hdr.option) (secM hdr.security) ss.request_body_key ss.request_body_iv (sessM ss))))
+      | .ClientSession _ => (s, RResult.err) }
+
+theorem newDecOk_hextOf2 (C : Crypto) : NewDecOk (hextOf2 C) C (Octo.VmessBodyGen.extOf_ok C) where
+  sess_new := fun _ _ _ => rfl
+  new_dec := by
+    intro hdr sess hiv hkey
+    refine ⟨sess, _, rfl, Octo.VmessBodyGen.rel_genOf C _ rfl, ?_⟩
+    refine ⟨⟨by show 12 ≤ sess.request_body_iv.length; omega, rfl⟩, ⟨by show 12 ≤ sess.request_body_iv.length; omega, fun _ => rfl⟩⟩
 
 /-- a generated client value for a model session -/
 def clientOf (C : Crypto) (s : Session) (hdr : RequestHeader) : ClientAEADCodec (Alg × Bytes) (Bytes × Nat) :=
